@@ -11,6 +11,7 @@ import YorkieModel.Driver.TreeListEngine
 import YorkieModel.Driver.LlrbEngine
 import YorkieModel.Driver.TextEngine
 import YorkieModel.Driver.LocksEngine
+import YorkieModel.Driver.YsonEngine
 open Yorkie.Driver
 
 def engines : List (String × Engine) := [
@@ -26,7 +27,8 @@ def engines : List (String × Engine) := [
   ("llrb", LlrbEngine.engine),
   ("text", TextEngine.engine),
   ("textif", TextEngine.engine),
-  ("locks", LocksEngine.engine)
+  ("locks", LocksEngine.engine),
+  ("yson", YsonEngine.engine)
 ]
 
 partial def loop (e : Engine) (h : IO.FS.Stream) (out : IO.FS.Stream) (st : e.State) : IO Unit := do
